@@ -1,9 +1,25 @@
 (** C19 — proofs about model/C19_Model.v (stdlib lists). *)
 From Coq Require Import List NArith ZArith Bool Arith Lia.
-From SK Require Import lib.Reach lib.C17_Farkas model.C17_Model model.C19_Model.
+From SK Require Import lib.Tok lib.Reach lib.C17_Farkas model.C17_Model model.C19_Model.
 Import ListNotations.
 
 Lemma deficiency_formula net iso r :
   let s := compute_summary net iso r in
   deficiency s = (Z.of_nat (n_complexes s) - Z.of_nat (n_linkage s) - Z.of_nat (stoich_rank s))%Z.
 Proof. unfold compute_summary. destruct (complex_graph net iso) as [cs arcs]. reflexivity. Qed.
+
+(** call histories on one analyzer: the k-th answer is the answer of a fresh analysis of the k-th network *)
+Lemma run19_hist_stateless steps :
+  run19_hist steps = Tok.L (map (fun x => run19 (fst (fst (fst x))) (snd (fst (fst x))) (snd (fst x)) (snd x)) steps).
+Proof.
+  unfold run19_hist. f_equal.
+  assert (G : forall st out,
+    snd (fold_left (fun acc x => let st' := step19 (fst acc) x in (st', snd acc ++ [st'])) steps (st, out))
+    = out ++ map (fun x => run19 (fst (fst (fst x))) (snd (fst (fst x))) (snd (fst x)) (snd x)) steps).
+  { induction steps as [|x steps IH]; intros st out; simpl; [rewrite app_nil_r; reflexivity|].
+    rewrite IH. rewrite <- app_assoc. reflexivity. }
+  apply (G (Tok.L []) []).
+Qed.
+
+Example ex_hist : run19_hist [] = Tok.L [] /\ forall x, run19_hist [x] = Tok.L [step19 (Tok.L []) x].
+Proof. split; reflexivity. Qed.
